@@ -458,3 +458,42 @@ func (m *verifSyncMap) Range(f func(k, v any) bool) {
 	}
 }
 func verifFireTimer() {}
+
+// ---- file system observation (native) ----
+func verifFSFaults(on bool) {}
+func verifTempDir() string {
+	d, err := os.MkdirTemp("", "verif-fs-")
+	if err != nil {
+		panic(err)
+	}
+	return d
+}
+func verifFileMode(name string) int {
+	fi, err := os.Stat(name)
+	if err != nil {
+		return -1
+	}
+	return int(fi.Mode().Perm())
+}
+func verifDirMode(name string) int { return verifFileMode(name) }
+func verifNameLess(a, b string) bool { return a < b }
+func verifFDContent(f *os.File) string {
+	if f == nil {
+		return ""
+	}
+	b, err := os.ReadFile(fmt.Sprintf("/proc/self/fd/%d", f.Fd()))
+	if err != nil {
+		b, _ = os.ReadFile(f.Name())
+	}
+	return string(b)
+}
+func verifFDIsName(f *os.File, name string) bool {
+	if f == nil {
+		return false
+	}
+	a, err1 := f.Stat()
+	b, err2 := os.Stat(name)
+	return err1 == nil && err2 == nil && os.SameFile(a, b)
+}
+func verifStdout() string { return "" }
+func verifNameEq(a, b string) bool { return a == b }
